@@ -407,10 +407,12 @@ def c13(tier, seed):
         Stage('history', mc=('HistoryMC', 'History_%s.cfg' % t), emit=('HistoryMC', 'History_%s_emit.cfg' % t),
               driver='history', trace=('DispatcherTrace', 'DispatcherTrace.cfg'), extra_scenarios=threads,
               nontrivial=lambda tr: len(tr['ev']) >= 3),
+        Stage('twins', emit=('HistoryMC', 'Twins_%s_emit.cfg' % t), driver='twins', trace=('TwinsTrace', 'TwinsTrace.cfg'),
+              nontrivial=lambda tr: len(tr['ev']) >= 2),
         Stage('retention', driver='retention', trace=('HistoryTrace', 'HistoryTrace.cfg'), extra_scenarios=retention,
               deviations={'ViewSignatureCache': 'HistoryTrace_dev_ViewSignatureCache.cfg'},
               nontrivial=lambda tr: len(tr['ev']) >= 10)],
-        rule='(a) ALL histories of length %d over a 12-class request corpus (calls, notifications, every failure class, batches, '
+        rule='(a) ALL histories of length %d over a 12-class request corpus and over 8 calls to look-alike validated methods (same function name and parameter names, different annotations / schemas) (calls, notifications, every failure class, batches, '
              'rejected documents) on ONE dispatcher with middlewares and generic + per-code error handlers (sync / async '
              'alternating): every single dispatch is validated by TLC against Dispatcher.tla, i.e. its reply may depend on its '
              'own text only; (b) N in {1, 10, %d} dispatches with a fresh context object each for function methods (context by '
